@@ -65,26 +65,32 @@ def centres(geom, rho=None):
 
 # fixed ill-conditioned list --------------------------------------------------------------------------------
 TIGHT = [((8236.0, 1235.0, 280.8), (0.000531, 0.004108, 0.021087)),
-         ((1.0e5, 1.5e4, 3.4e3), (0.0002, 0.0015, 0.008))]
-DIFF = {"p": (1, 0.12), "d": (2, 0.2), "f": (3, 0.3)}
-XY = [("f", "f"), ("d", "f"), ("d", "d"), ("p", "f")]
+         ((1.0e5, 1.5e4, 3.4e3), (0.0002, 0.0015, 0.008)),
+         # the same kind of shell with its primitives listed in increasing order, and a wide-range contraction
+         # (tight and valence primitives in one shell) in both orders: the order of the primitives must not matter
+         ((3.4e3, 1.5e4, 1.0e5), (0.008, 0.0015, 0.0002)),
+         ((1.0e4, 30.0, 0.4), (0.002, 0.1, 0.6)),
+         ((0.4, 30.0, 1.0e4), (0.6, 0.1, 0.002))]
+DIFF = {"p": (1, (0.12,), (1.0,)), "d": (2, (0.2,), (1.0,)), "f": (3, (0.3,), (1.0,)),
+        "f2": (3, (0.12, 0.9), (0.5, 0.6))}  # f2: two primitives listed in increasing order
+XY = [("f", "f"), ("d", "f"), ("d", "d"), ("p", "f"), ("f2", "f2")]
 PLACE = ["bra", "ket", "split13", "split14", "split23"]
 
 
 def ill_shells(ti, xy, place):
     cs = centres("general")
     ex, co = TIGHT[ti]
-    lx, ax = DIFF[xy[0]]
-    ly, ay = DIFF[xy[1]]
+    lx, ax, cx = DIFF[xy[0]]
+    ly, ay, cy = DIFF[xy[1]]
 
     def T(c):
         return RefShell(0, c, ex, [[v] for v in co], "cartesian")
 
     def X(c):
-        return RefShell(lx, c, (ax,), [[1.0]], "cartesian")
+        return RefShell(lx, c, ax, [[v] for v in cx], "cartesian")
 
     def Y(c):
-        return RefShell(ly, c, (ay,), [[1.0]], "cartesian")
+        return RefShell(ly, c, ay, [[v] for v in cy], "cartesian")
 
     # the two core shells sit on the same atom (two tight functions on different atoms do not overlap at all)
     if place == "bra":
